@@ -129,6 +129,8 @@ def cmp_tree(mo, io, a):
     keys its metadata cache by (class, parent namespace) — then it is the first-build-wins cache
     of XmlContext (property C14) and not the parser that differs from the model.  The outcome
     class (value / which error) must agree in any case."""
+    if unsupported(mo) and a.get("_sup", False):
+        return False  # `unsupported` is only admissible outside the proved supported region
     if cmp_parse(mo, io, a):
         return True
     if ("ok" in mo) != ("ok" in io) or mo.get("err") != io.get("err"):
@@ -229,7 +231,7 @@ def cmp_doc(mo, io, a):
     with a documented error (binding the event prefix may already have failed with another
     documented error before the tokenizer reaches the syntax error, so only the class counts)."""
     if unsupported(mo):
-        return True
+        return not a.get("_sup", False)  # `unsupported` is only admissible outside the proved supported region
     if a["tok"] == "syntax":
         return "err" in io and io["err"] in DOCUMENTED
     return mo == io
@@ -268,7 +270,7 @@ def cmp_doc_lxml(mo, io, a):
     """well-formed input: libxml2 strict and libxml2 recovering deliver the same events, so the
     model's outcome exactly; otherwise anything but a leak (recovery may well produce an object)"""
     if unsupported(mo):
-        return True
+        return not a.get("_sup", False)  # `unsupported` is only admissible outside the proved supported region
     if a["tok"] == "syntax":
         return "ok" in io or io.get("err") in DOCUMENTED
     if a["tok"] in ("stopped", "text_decode"):
@@ -423,7 +425,7 @@ def impl_dict(a):
 
 def cmp_dict(mo, io, a):
     if unsupported(mo):
-        return True
+        return not a.get("_sup", False)  # `unsupported` is only admissible outside the proved supported region
     return mo == io
 
 
@@ -474,23 +476,70 @@ def impl_doc_xinclude(a):
 
 def cmp_doc_xinclude(mo, io, a):
     if unsupported(mo):
-        return True
+        return not a.get("_sup", False)  # `unsupported` is only admissible outside the proved supported region
     if not (isinstance(a["tok"], dict) and "tree" in a["tok"]):
         # a broken inclusion / part: any documented error (which one comes first is the tokenizer's business)
         return "err" in io and io["err"] in DOCUMENTED
     return mo == io
 
 
+# =============================================================================== supported region of the models
+REGION: dict = {}
+
+
+def with_region(op, gen):
+    """Ask the driver (op fault.supported) for every generated case whether it lies inside the supported region
+    of the model (`Fault/Supported.lean`: there the no-leak theorems speak about the library's errors only; outside,
+    the model may answer `unsupported` and the case is compared by correspondence alone), mark the case, and record
+    the share per op."""
+    import framework
+
+    def g(rng, tier):
+        cases = list(gen(rng, tier))
+        reqs, idx = [], []
+        for i, a in enumerate(cases):
+            tree = a.get("tree") if "tree" in a else (a["tok"].get("tree") if isinstance(a.get("tok"), dict) else None)
+            if tree is not None:
+                reqs.append({"op": "fault.supported", "args": {"ctx": a["ctx"], "tree": tree}})
+                idx.append(i)
+            elif "loaded" in a:
+                reqs.append({"op": "fault.supported", "args": {"ctx": a["ctx"], "loaded": a["loaded"], "fuel": a.get("fuel", 64), "tree": None}})
+                idx.append(i)
+        try:
+            outs = framework.Driver().run(reqs)
+        except Exception:  # noqa: BLE001  (driver not built: the run reports that elsewhere)
+            outs = [None] * len(reqs)
+        inside = 0
+        for i, o in zip(idx, outs):
+            if isinstance(o, dict) and "ok" in o:
+                cases[i]["_sup"] = bool(o["ok"])
+                inside += bool(o["ok"])
+        REGION[op] = (inside, len(idx), len(cases))
+        print(f"[region] {op}: {inside} of {len(idx)} generated inputs with a tree / loaded value are inside the supported region "
+              f"({len(cases) - len(idx)} cases have none: tokenizer or json.load failures)", flush=True)
+        yield from cases
+
+    return g
+
+
+def region_classify(inner):
+    def c(a, o):
+        tag = {True: "in/", False: "OUT/"}.get(a.get("_sup"), "")
+        return tag + inner(a, o)
+
+    return c
+
+
 CORRS = [
-    Corr("bind.parse_u", gen_tree_faults, impl_parse_capped, compare=cmp_tree, classify=classify_tree,
+    Corr("bind.parse_u", with_region("bind.parse_u", gen_tree_faults), impl_parse_capped, compare=cmp_tree, classify=region_classify(classify_tree),
          describe="NodeParser(EventsHandler) vs model (parseRootU: Element/Primitive/Standard/Wildcard/Skip/Wrapper/Union nodes) on valid documents and every tree-level fault kind"),
-    Corr("fault.document", gen_doc_native, impl_doc_native, compare=cmp_doc, classify=classify_outcome,
+    Corr("fault.document", with_region("fault.document", gen_doc_native), impl_doc_native, compare=cmp_doc, classify=region_classify(classify_outcome),
          describe="XmlParser(XmlEventHandler).from_bytes vs model(parseDocument) on byte-level faults; tokenizer outcome from libxml2 strict"),
-    Corr("fault.document.lxml", gen_doc_lxml, impl_doc_lxml, compare=cmp_doc_lxml, classify=classify_outcome,
+    Corr("fault.document.lxml", with_region("fault.document.lxml", gen_doc_lxml), impl_doc_lxml, compare=cmp_doc_lxml, classify=region_classify(classify_outcome),
          describe="XmlParser(LxmlEventHandler).from_bytes on byte-level faults: model outcome on well-formed input, no leak otherwise"),
-    Corr("fault.document.xinclude", gen_doc_xinclude, impl_doc_xinclude, compare=cmp_doc_xinclude, classify=classify_outcome,
+    Corr("fault.document.xinclude", with_region("fault.document.xinclude", gen_doc_xinclude), impl_doc_xinclude, compare=cmp_doc_xinclude, classify=region_classify(classify_outcome),
          describe="XmlParser(process_xinclude=True) with both handlers: inclusion is transparent (model outcome on the expanded tree), broken inclusions end in documented errors"),
-    Corr("dict.decode", gen_dict, impl_dict, compare=cmp_dict, classify=classify_outcome,
+    Corr("dict.decode", with_region("dict.decode", gen_dict), impl_dict, compare=cmp_dict, classify=region_classify(classify_outcome),
          describe="DictDecoder.decode / JsonParser.from_bytes outcome class vs model on value-level and byte-level JSON faults"),
 ]
 
@@ -874,15 +923,19 @@ ASSUMPTIONS = [
     "a DerivedElement wrapper around an instance of the requested class counts as an instance (documented behaviour for xsi:type / derived JSON documents)",
 ]
 LEVEL_TEXT = (
-    "Lean theorems over every element tree, every class universe (arbitrary metadata), every parser config: the tree-level parser "
-    "(NodeParser + Element/Primitive/Standard/Wildcard/Skip/Wrapper/Union nodes + ParserUtils) ends in a value, ParserError, ConverterError or "
-    "XmlContextError, never in another exception type (no_leak_parse_union; the union-aware model is proved a conservative extension of the one "
-    "the other properties use, union_model_extends_parse, and UnionNode's choice is characterised: union_picks_best_score); the byte-level entry "
-    "point is proved leak-free for every tokenizer outcome of both handlers incl. the xinclude path (no_leak_document); the JSON/dict decoder "
-    "model is proved leak-free for every loaded value and every json.load outcome (no_leak_dict, no_leak_json). Tied to /repo by differential "
-    "checks on every tree-level fault kind (union-targeted faults and a bounded-exhaustive union section included), byte-level faults for both "
-    "handlers, xinclude splits of real documents, and value/byte-level JSON faults. One tokenizer-level behaviour (expat does not check the "
-    "version number) stays listed as a known finding."
+    "Lean theorems over every element tree, every class universe (arbitrary metadata), every parser config. Inside the SUPPORTED REGION "
+    "of the models — a decidable predicate on universe and document (Fault/Supported.lean: every field default is one parse_var follows, "
+    "no xsi:type naming a builtin datatype other than str/int/bool/QName; for JSON: no compound/wildcard/anyType/union-of-classes field, no "
+    "object spelled like a generic AnyElement, fuel >= 3*depth+1) — the models never answer `unsupported` (supported_region_xml, "
+    "supported_region_dict) and the outcome of NodeParser.parse (Element/Primitive/Standard/Wildcard/Skip/Wrapper/Union nodes), of the "
+    "byte-level entry point for every tokenizer outcome of both handlers incl. xinclude, and of DictDecoder.decode / JsonParser.parse is a value "
+    "or ParserError / ConverterError / XmlContextError and nothing else (no_leak_parse_supported, no_leak_document_supported, "
+    "no_leak_dict_supported; malformed_rejected: every tokenizer failure is ParserError). Outside the region the models say `unsupported` and the "
+    "check relies on the correspondence; the evidence records the share of generated inputs inside (quick tier: 99.7 % of the trees, 97.6 % of the "
+    "JSON values). UnionNode's choice is characterised (union_picks_best_score) and the union-aware model is a conservative extension of the one "
+    "the other properties use (union_model_extends_parse). Tied to /repo by differential checks on every tree-level fault kind (union-targeted and "
+    "a bounded-exhaustive union section), byte-level faults for both handlers (incl. the outcomes only libxml2's recovery mode has), xinclude "
+    "splits, and value/byte-level JSON faults. One tokenizer-level behaviour (expat does not check the version number) stays a known finding."
 )
 LEVEL_NOTE = (
     "Trusted: Lean kernel; expat/libxml2 (their outcome on a byte string is an input of the model); the sampling correspondence. Not covered: "
